@@ -466,6 +466,7 @@ theorem grid_formatted_reproduces_pw (hW : WOk W) {q : Parser} (hq : RecvOk W q)
 structure Shows (q : Screen) (S : Screen) : Prop where
   size : q.cur.size = S.cur.size
   cells : q.cur.rows.map (fun r => r.cells.map cellObs) = S.cur.rows.map (fun r => r.cells.map cellObs)
+  views : q.cur.rows.map (fun r => r.cells.map view) = S.cur.rows.map (fun r => r.cells.map view)
   wrapped : q.cur.rows.map (fun r => r.wrapped) = S.cur.rows.map (fun r => r.wrapped)
   cursor : q.cur.pos = S.cur.pos
   hide : q.hideCursor = S.hideCursor
@@ -501,9 +502,21 @@ theorem cells_of_views {l1 l2 : List Cell} (h : l1.map view = l2.map view) : l1.
 theorem rows_shown {srows : List Row} {cols : Nat} {pp : Pos} {R : RS}
     (h : RowsInv srows cols srows.length false pp R) :
     R.g.rows.map (fun r => r.cells.map cellObs) = srows.map (fun r => r.cells.map cellObs) ∧
-    R.g.rows.map (fun r => r.wrapped) = srows.map (fun r => r.wrapped) := by
+    R.g.rows.map (fun r => r.wrapped) = srows.map (fun r => r.wrapped) ∧
+    R.g.rows.map (fun r => r.cells.map view) = srows.map (fun r => r.cells.map view) := by
   have hl : R.g.rows.length = srows.length := by rw [h.canvas.alloc, h.nrows]
-  constructor
+  refine ⟨?_, ?_, ?_⟩
+  rotate_left 2
+  · apply List.ext_getElem?
+    intro k
+    simp only [List.getElem?_map]
+    by_cases hk : k < srows.length
+    · obtain ⟨Rk, hRk, hd, _⟩ := h.row k hk
+      obtain ⟨hv, _, _⟩ := hd hk
+      rw [hRk, List.getElem?_eq_getElem hk]
+      simp only [Option.map_some, Option.some.injEq]
+      exact hv
+    · rw [List.getElem?_eq_none (by omega), List.getElem?_eq_none (by omega)]
   · apply List.ext_getElem?
     intro k
     simp only [List.getElem?_map]
@@ -579,8 +592,8 @@ theorem contents_formatted_reproduces (hW : WOk W) {q : Parser} (hq : RecvOk W q
       have := rsOf_withRS q1.ws { Rf with pen := S.attrs }
       simp only [rsOf, RS.mk.injEq] at this
       exact this.1
-    obtain ⟨hc, hwr⟩ := rows_shown hinvf
-    refine ⟨?_, ?_, ?_, ?_, ?_, ?_, ?_⟩
+    obtain ⟨hc, hwr, hvw⟩ := rows_shown hinvf
+    refine ⟨?_, ?_, by rw [hcur]; exact hvw, ?_, ?_, ?_, ?_, ?_⟩
     · rw [hcur]
       have h1 := hinvf.hcols
       have h2 := hinvf.nrows
@@ -626,7 +639,8 @@ theorem state_formatted_reproduces (hW : WOk W) {q : Parser} (hq : RecvOk W q)
   · have hs : q2.screen = C10.setInputModes q1.screen (C10.inputModes S) := by
       show q2.ws.screen = _; rw [w2]; rfl
     have hcur : q2.screen.cur = q1.screen.cur := by rw [hs]; rfl
-    exact ⟨by rw [hcur]; exact hsh.size, by rw [hcur]; exact hsh.cells, by rw [hcur]; exact hsh.wrapped,
+    exact ⟨by rw [hcur]; exact hsh.size, by rw [hcur]; exact hsh.cells, by rw [hcur]; exact hsh.views,
+      by rw [hcur]; exact hsh.wrapped,
       by rw [hcur]; exact hsh.cursor, by rw [hs]; exact hsh.hide, by rw [hs]; exact hsh.pen,
       by rw [hcur]; exact hsh.off⟩
   · show C10.inputModes q2.ws.screen = _
@@ -776,5 +790,56 @@ theorem full_redraw_fresh_nonvacuous :
       pure (emitInvB W0 s && s.cur.scrollbackOffset == 0 && decide (s.cur.pos.col < s.cur.size.cols) &&
             (s.cur.rows.any (·.wrapped)))) = true := by
   decide +kernel
+
+/-- a receiver that shows `S` looks the same to every emitter (C19) -/
+theorem screenSame_of_shows {q S : Screen} (h : Shows q S) (hm : C10.inputModes q = C10.inputModes S)
+    (hoff : S.cur.scrollbackOffset = 0) : ScreenSame q S := by
+  have hrows : ListRel RowSame q.cur.rows S.cur.rows := by
+    have hl : q.cur.rows.length = S.cur.rows.length := by simpa using congrArg List.length h.views
+    have key : ∀ (l1 l2 : List Row), l1.map (fun r => r.cells.map view) = l2.map (fun r => r.cells.map view) →
+        l1.map (fun r => r.wrapped) = l2.map (fun r => r.wrapped) → ListRel RowSame l1 l2 := by
+      intro l1
+      induction l1 with
+      | nil => intro l2 h1 _; cases l2 with | nil => trivial | cons _ _ => simp at h1
+      | cons a l1 ih =>
+        intro l2 h1 h2
+        cases l2 with
+        | nil => simp at h1
+        | cons b l2 =>
+          simp only [List.map_cons, List.cons.injEq] at h1 h2
+          exact ⟨⟨h2.1, listRel_of_map_eq view h1.1⟩, ih l2 h1.2 h2.2⟩
+    exact key _ _ h.views h.wrapped
+  have hg : GridSame q.cur S.cur := ⟨h.size, h.cursor, hrows⟩
+  simp only [C10.inputModes, C10.InputModes.mk.injEq] at hm
+  exact ⟨hg, visSame_of_offset0 hg h.off hoff, h.hide, h.pen, hm⟩
+
+/-- **C01, re-emission**: emitting from the reproduced screen gives byte-identical output -/
+theorem reemit_identical {q S : Screen} (h : Shows q S) (hm : C10.inputModes q = C10.inputModes S)
+    (hoff : S.cur.scrollbackOffset = 0) :
+    q.contentsFormatted = S.contentsFormatted ∧ q.stateFormatted = S.stateFormatted :=
+  ⟨contents_formatted_same (screenSame_of_shows h hm hoff), state_formatted_same (screenSame_of_shows h hm hoff)⟩
+
+/-- **C01, complete statement on a new parser**: `obs` equality, no events, and byte-identical re-emission -/
+theorem full_redraw_fresh_reemit (hW : WOk W) (S : Screen) (hinv : emitInvB W S = true) (hoff : S.cur.scrollbackOffset = 0)
+    (hcur : S.cur.pos.col < S.cur.size.cols ∨
+      (S.cur.pos.col = S.cur.size.cols ∧ ∀ h : S.cur.pos.row < S.cur.rows.length, lastOcc (S.cur.rows[S.cur.pos.row]).cells))
+    (sb : Nat) :
+    ∃ q bytes q', Parser.new S.cur.size.rows S.cur.size.cols sb = .ok q ∧ S.stateFormatted = .ok bytes ∧
+      q.process W cb bytes = .ok q' ∧ obs q'.screen = obs S ∧ q'.ws.events = [] ∧
+      q'.screen.stateFormatted = .ok bytes ∧ q'.screen.contentsFormatted = S.contentsFormatted := by
+  have hS := srcScreen_of_inv hinv hoff hcur
+  have hI : Inv W S := by
+    simp only [emitInvB, invPlusB, Bool.and_eq_true] at hinv
+    exact hinv.1.1.1.1.1
+  obtain ⟨hcg, _⟩ := ((inv_iff W S).mp hI).cur
+  obtain ⟨q, enew, hq, hqoff, hqsz, hm, he⟩ := new_recvOk W S.cur.size.rows S.cur.size.cols sb hcg.rows_pos hcg.cols_pos
+    hcg.rows_u16 hcg.cols_u16
+  obtain ⟨bytes, q', eb, ep, _, hsh, hmodes, hev⟩ := state_formatted_reproduces (cb := cb) hW hq hqoff hm he S hS
+    (by rw [hqsz])
+  obtain ⟨r1, r2⟩ := reemit_identical hsh hmodes hoff
+  refine ⟨q, bytes, q', enew, eb, ep, shows_obs hsh hmodes hoff, ?_, by rw [r2]; exact eb, r1⟩
+  rw [hev]
+  simp only [Parser.new, C13.new_eq _ _ _ hcg.rows_pos, ok_bind, pure_eq_ok, Except.ok.injEq] at enew
+  rw [← enew]
 
 end Vt.C01
